@@ -347,6 +347,9 @@ func (s *Script) Render(prelude string, pos int, goal Term, getValues []string) 
 			sb.WriteByte('\n')
 		}
 	}
+	if strings.Contains(goal.S, "vacuity_twin_flag") {
+		sb.WriteString("(declare-fun vacuity_twin_flag () Bool)\n")
+	}
 	fmt.Fprintf(&sb, "(assert (not %s))\n(check-sat)\n", goal.S)
 	if len(getValues) > 0 {
 		fmt.Fprintf(&sb, "(get-value (%s))\n", strings.Join(getValues, " "))
